@@ -156,6 +156,14 @@ class LGen(solvecheck.Gen):
             if l["randsz"]:
                 # mostly first (the size is then solved before the elements), sometimes later in the block
                 stmts.insert(0 if r.random() < 0.75 else r.randint(0, len(stmts)), self.size_constraint(li))
+        # an ordering directive between a scalar and a whole list (the list stands for its size and its elements)
+        rf = [i for i, f in enumerate(fs) if f["rand"] and not f.get("enums")]
+        fl = [li for li, l in enumerate(ls) if l["rand"] and not l["randsz"]]
+        if rf and fl and r.random() < ORDER_P[0]:
+            a, b = {"fld": r.choice(rf)}, {"list": r.choice(fl)}
+            if r.random() < 0.3:
+                a, b = b, a
+            stmts.append({"k": "solve_order", "before": a, "after": b})
         ops = [{"op": "randomize", "seed": r.randrange(1 << 30)}]
         for _ in range(r.randint(0, 4)):
             c = r.random()
@@ -183,7 +191,8 @@ def requests_for(LL, S, scn, recs):
     for k, rec in enumerate(recs):
         if rec["op"]["op"] != "randomize":
             continue
-        tops = [s for b in sorted(scn["blocks"], key=lambda b: b["name"]) for s in b["stmts"]]
+        all_tops = [s for b in sorted(scn["blocks"], key=lambda b: b["name"]) for s in b["stmts"]]
+        tops = [s for s in all_tops if s["k"] != "solve_order"]
         fields = [dict(f, val=rec["before_s"][i], declRand=bool(f["rand"] and not f.get("attr"))) for i, f in enumerate(scn["fields"])]
         lists = [{"name": l["name"], "w": l["w"], "s": l["s"], "rand": l["rand"], "randsz": l["randsz"],
                   "vals": rec["before_l"][li]["vals"], "size": rec["before_l"][li]["size"]} for li, l in enumerate(scn["lists"])]
@@ -228,7 +237,12 @@ def requests_for(LL, S, scn, recs):
                 else:
                     holes.append(p_)       # grown for the solve, gone afterwards
         holes.sort()
-        req = {"op": "l.call", "fields": fields, "lists": lists, "tops": tops, "rec": rr, "enumLimit": 13,
+        def ids(x):
+            if "fld" in x:
+                return [x["fld"]]
+            return [pidx[scn["lists"][x["list"]]["name"] + ".size"]] + list(pos[x["list"]])
+        order = [[b, a] for s in all_tops if s["k"] == "solve_order" for b in ids(s["before"]) for a in ids(s["after"])]
+        req = {"op": "l.call", "fields": fields, "lists": lists, "tops": tops, "rec": rr, "enumLimit": 13, "order": order,
                "implFinal": after_flat if rec["outcome"] == "ok" else None, "implHoles": holes}
         spec = {"op": "l.spec", "fields": [dict(f, val=rec["after_s"][i]) for i, f in enumerate(scn["fields"])],
                 "lists": [{"name": l["name"], "w": l["w"], "s": l["s"], "rand": l["rand"], "vals": rec["exposed"][li]["iter"]}
@@ -243,6 +257,9 @@ def _vars_known(t, pidx):
     if t[0] == "var":
         return t[1] in pidx
     return all(_vars_known(x, pidx) for x in t[1:])
+
+
+ORDER_P = [0.15]     # share of scenarios with a solve_order between a scalar and a whole list (C20 raises it)
 
 
 def _worker(args):
@@ -410,7 +427,7 @@ def exc_signature(scn, rec):
 
 
 def tops_of(scn):
-    return [s for b in sorted(scn["blocks"], key=lambda b: b["name"]) for s in b["stmts"]]
+    return [s for b in sorted(scn["blocks"], key=lambda b: b["name"]) for s in b["stmts"] if s["k"] != "solve_order"]
 
 
 def _kind(s):
